@@ -23,6 +23,11 @@ pub enum Op {
     /// a PUT request frame from an attached stub peer to node: (node, key, value length)
     RawPut(u8, u8, u16),
     SetMode(u8, Mode),
+    /// fault in the middle of a later operation: node handles n more inbound frames, then switches to the mode
+    SetModeAfter(u8, u8, Mode),
+    /// put_with_targets(node, key, value length, target picks): a pick names a connected peer, any real node,
+    /// a fabricated id, the node's stub or the node itself
+    PutTargets(u8, u8, u16, Vec<u8>),
 }
 #[derive(Debug, Clone, Serialize, Deserialize)]
 pub struct Case {
@@ -104,6 +109,96 @@ async fn run_async(c: &Case) -> Verdict {
                 hub.set_mode(&nodes[i].tid, *m);
                 if *m != Mode::Up {
                     nt = true;
+                }
+            }
+            Op::SetModeAfter(i, after, m) => {
+                let i = *i as usize % n;
+                // the model treats the node as faulty from now on (its mode is only used to skip expectations)
+                if *m != Mode::Up {
+                    modes[i] = *m;
+                    nt = true;
+                }
+                hub.set_mode_after(&nodes[i].tid, *after as u32, *m);
+            }
+            Op::PutTargets(i, k, len, picks) => {
+                let i = *i as usize % n;
+                if modes[i] != Mode::Up {
+                    continue;
+                }
+                serial += 1;
+                let ki = (*k % 4) as usize;
+                let val = value(*k, serial, *len);
+                let connected: Vec<String> = nodes[i].mgr.get_connected_peers().await.into_iter().map(|p| p.peer_id).collect();
+                let mut targets: Vec<String> = Vec::new();
+                for p in picks {
+                    let t = match p % 8 {
+                        0..=3 if !connected.is_empty() => connected[(*p as usize / 8) % connected.len()].clone(),
+                        4 | 5 => nodes[(*p as usize / 8) % n].tid.clone(),
+                        6 => hex::encode(blake3::hash(&[c.id_seed, *p, 0xf3]).as_bytes()),
+                        _ => stubs[i].clone(),
+                    };
+                    if !targets.contains(&t) {
+                        targets.push(t);
+                    }
+                }
+                let before = stores(&nodes, &keys).await;
+                hub.clear_trace();
+                let r = tokio::time::timeout(T_REQ * 50, nodes[i].mgr.put_with_targets(keys[ki], val.clone(), &targets)).await;
+                let trace = hub.trace();
+                settle(5).await;
+                let after = stores(&nodes, &keys).await;
+                let r = match r {
+                    Err(_) => {
+                        v.fail(format!("{ID}/put_with_targets/did-not-complete"), format!("step {step}"));
+                        break;
+                    }
+                    Ok(r) => r,
+                };
+                if *len > 512 {
+                    nt = true;
+                    if r.is_ok() {
+                        v.fail(format!("{ID}/put_with_targets/oversized-value-accepted"), format!("step {step}: {len} bytes"));
+                    }
+                    if after != before {
+                        v.fail(format!("{ID}/put_with_targets/oversized-value-entered-a-store"), format!("step {step}"));
+                    }
+                    continue;
+                }
+                let put_dests: HashSet<String> = trace.iter().filter_map(|e| match e { Ev::Frame { from, to, dht: Some(d), .. } if *from == nodes[i].tid && d.is_request && d.op == "Put" => Some(to.clone()), _ => None }).collect();
+                match r {
+                    Err(_) => v.class("put_with_targets_error"),
+                    Ok(DhtNetworkResult::PutSuccess { peer_outcomes, replicated_to, .. }) => {
+                        ever[ki].insert(val.clone());
+                        if after[i][ki].as_ref() != Some(&val) {
+                            v.fail(format!("{ID}/put_with_targets/accepted-but-not-held-locally"), format!("step {step}: node {i} reports PutSuccess(replicated_to={replicated_to})"));
+                        }
+                        let mut ok_remote = 0usize;
+                        for o in &peer_outcomes {
+                            if !targets.contains(&o.peer_id) {
+                                v.fail(format!("{ID}/put_with_targets/outcome-for-a-peer-that-was-not-targeted"), format!("step {step}"));
+                            }
+                            if o.success {
+                                ok_remote += 1;
+                                if !put_dests.contains(&o.peer_id) {
+                                    v.fail(format!("{ID}/put_with_targets/success-reported-for-a-peer-that-was-sent-nothing"), format!("step {step}"));
+                                }
+                                if let Some(j) = name_to_node.get(&o.peer_id) {
+                                    if *j != i && after[*j][ki].as_ref() != Some(&val) {
+                                        v.fail(format!("{ID}/put_with_targets/reported-replica-does-not-hold-the-value"), format!("step {step}: node {j} is reported as a successful replica of node {i}'s targeted put but holds {:?}", after[*j][ki].as_ref().map(|x| x.len())));
+                                    }
+                                }
+                            }
+                        }
+                        // replicated_to counts the local copy plus the successful remote replicas
+                        if replicated_to != 1 + ok_remote {
+                            v.fail(format!("{ID}/put_with_targets/replica-count-differs-from-reported-outcomes"), format!("step {step}: replicated_to={replicated_to}, {ok_remote} successful outcomes"));
+                        }
+                        if targets.len() >= 2 {
+                            nt = true;
+                        }
+                        v.class("targeted_put");
+                    }
+                    Ok(other) => v.fail(format!("{ID}/put_with_targets/unexpected-result"), format!("{other:?}")),
                 }
             }
             Op::StoreLocal(i, k, len) => {
@@ -404,7 +499,7 @@ fn len_pick() -> impl Strategy<Value = u16> {
 pub fn run(run: &Run) {
     run.assume("same in-memory network and virtual clock as C01; ground truth is read with get_local on every node after every step");
     run.assume("values carry their key index and a serial number so that bytes stored under different keys are different");
-    run.set_rule("history", "N real nodes (1..=12, thorough ..=30) in a generated topology; history (len 1..12, thorough ..40) of put / get / store_local / raw PUT frames from stub peers / fault changes over 4 keys, values 0..=600 bytes with 511/512/513 over-weighted; non-trivial = a put with ≥1 remote replica followed by a get from another node, an oversize value, or a fault during the history");
+    run.set_rule("history", "N real nodes (1..=12, thorough ..=30) in a generated topology; history (len 1..12, thorough ..40) of put / put_with_targets (connected, unconnected, fabricated and stub targets) / get / store_local / raw PUT frames from stub peers / fault changes (immediate, or after the node has handled 0..3 more frames, i.e. in the middle of a later operation) over 4 keys, values 0..=600 bytes with 511/512/513 over-weighted; non-trivial = a put with ≥1 remote replica followed by a get from another node, an oversize value, or a fault during the history");
     run.max_shrink.store(150, std::sync::atomic::Ordering::Relaxed);
     let sh = shards_for(run.tier);
     let maxn = run.tier.pick(12u8, 30);
@@ -417,6 +512,8 @@ pub fn run(run: &Run) {
             2 => (any::<u8>(), 0u8..4, len_pick()).prop_map(|(i, k, l)| Op::StoreLocal(i, k, l)),
             2 => (any::<u8>(), 0u8..4, len_pick()).prop_map(|(i, k, l)| Op::RawPut(i, k, l)),
             2 => (any::<u8>(), prop_oneof![2 => Just(Mode::Up), 2 => Just(Mode::Silent), 1 => Just(Mode::Dead), 1 => (1u32..1500).prop_map(Mode::Slow)]).prop_map(|(i, m)| Op::SetMode(i, m)),
+            2 => (any::<u8>(), 0u8..4, prop_oneof![3 => Just(Mode::Silent), 1 => Just(Mode::Dead), 1 => (1u32..1500).prop_map(Mode::Slow), 1 => (2100u32..3000).prop_map(Mode::Slow)]).prop_map(|(i, a, m)| Op::SetModeAfter(i, a, m)),
+            2 => (any::<u8>(), 0u8..4, len_pick(), prop::collection::vec(any::<u8>(), 0..6)).prop_map(|(i, k, l, t)| Op::PutTargets(i, k, l, t)),
         ];
         (1u8..=maxn, topo, any::<u8>(), prop::collection::vec(op, 1..=maxlen)).prop_map(|(n, topo, id_seed, ops)| Case { n, topo, id_seed, ops })
     };
